@@ -4,7 +4,7 @@
 //  phase 2  ncpu + 4 items block on a semaphore that only a later item of the same queue signals: progress needs
 //           the pool to grow beyond its size (the monitor's poke with a negative floor)
 //  phase 3  quiescence: dgq_pending must be 0 again (nothing in flight), and a fresh item must still run
-// usage: c01_pool <seed>; output: "OFF pending <o> pool <o>", "ORACLE ok|VIOL ...", then "E ..." events
+// usage: c01_pool <seed> [thread name]; output: "OFF pending <o> pool <o>", "ORACLE ok|VIOL ...", then "E ..." events
 #define _GNU_SOURCE
 #include <dispatch/dispatch.h>
 #include <stdio.h>
@@ -15,6 +15,7 @@
 #include <stdatomic.h>
 #include <sys/syscall.h>
 #include <time.h>
+#include <sys/prctl.h>
 typedef void (*cb_t)(const volatile void *addr, unsigned size, int op, uint64_t o, uint64_t n, const char *func, int line);
 extern cb_t _dispatch_verif_atomic_cb;
 extern void _dispatch_verif_root_peek(dispatch_queue_global_t dq, int *pending, int *pool_size, long *off_pending, long *off_pool_size);
@@ -29,6 +30,8 @@ static void dump(void){ unsigned long n=atomic_load(&nev); if(n>MAXEV) n=MAXEV; 
 static uint64_t now_ms(void){ struct timespec ts; clock_gettime(CLOCK_MONOTONIC,&ts); return (uint64_t)ts.tv_sec*1000+ts.tv_nsec/1000000; }
 static void spin_ms(int ms){ uint64_t e=now_ms()+(uint64_t)ms; while(now_ms()<e){} }
 int main(int argc,char**argv){ uint64_t seed=argc>1?strtoull(argv[1],0,0):1; (void)seed;
+  // the name threads inherit (a client may name its threads freely; it shows in /proc/<tid>/stat, which the pool monitor reads)
+  if(argc>2 && argv[2][0]) prctl(PR_SET_NAME,argv[2],0,0,0);
   evs=calloc(MAXEV,sizeof *evs); dispatch_queue_global_t gq=dispatch_get_global_queue(0,0); rootq=(char*)gq;
   int pend,pool; _dispatch_verif_root_peek(gq,&pend,&pool,&offp,&offs); printf("OFF pending %ld pool %ld initial %d %d\n",offp,offs,pend,pool);
   _dispatch_verif_atomic_cb=cb;
